@@ -22,10 +22,9 @@ proof fn lemma_wm_ref_increasing(rem: Seq<&usize>)
 impl<W> AdjacencyListWeighted<W> {
     // C02 out_neighbors: exactly the out-neighbours of u, ascending, no repeats.  `u` outside V: `self.arcs[u]` panics
     // (documented), stated as a precondition as for `outdegree` in weighted_core.
-    /*@fn impl=AdjacencyListWeighted trait=OutNeighbors name=out_neighbors wrap=copied subst="Iterator<Item=usize>=>Iterator<Item=usize>+use<'_,W>"
-    requires
-        u < self.ord(),
+    /*@fn impl=AdjacencyListWeighted trait=OutNeighbors name=out_neighbors wrap=copied subst="Iterator<Item=usize>=>Iterator<Item=usize>+use<'_,W>" safeindex
     ensures
+        u < self.ord(),
         r.obeys_prophetic_iter_laws(),
         r.decrease() is Some,
         forall|i: int| 0 <= i < r.remaining().len() ==> self.has(u as int, #[trigger] r.remaining()[i] as int),
@@ -35,12 +34,14 @@ impl<W> AdjacencyListWeighted<W> {
     @fn_start
         proof {
             assert forall|rem: Seq<&usize>| #[trigger] vstd::std_specs::btree::increasing_seq(rem) implies wm_ascending(rem) by { lemma_wm_ref_increasing(rem); }
-            let dom = self.arcs@[u as int]@.dom();
-            assert forall|s: Seq<usize>, v: int| #[trigger] s.to_set() == dom && #[trigger] self.has(u as int, v) implies s.contains(v as usize) by {
-                assert(s.to_set().contains(v as usize));
-            }
-            assert forall|s: Seq<usize>, i: int| #[trigger] s.to_set() == dom && 0 <= i < s.len() implies self.has(u as int, #[trigger] s[i] as int) by {
-                assert(s.to_set().contains(s[i]));
+            if u < self.ord() {   // otherwise the indexing below panics
+                let dom = self.arcs@[u as int]@.dom();
+                assert forall|s: Seq<usize>, v: int| #[trigger] s.to_set() == dom && #[trigger] self.has(u as int, v) implies s.contains(v as usize) by {
+                    assert(s.to_set().contains(v as usize));
+                }
+                assert forall|s: Seq<usize>, i: int| #[trigger] s.to_set() == dom && 0 <= i < s.len() implies self.has(u as int, #[trigger] s[i] as int) by {
+                    assert(s.to_set().contains(s[i]));
+                }
             }
         }
     @*/
